@@ -200,6 +200,8 @@ pub enum Op {
     /// a batch of up to `n` distinct keys with 30 000-byte values (close to the maximum batch), so
     /// that log frames cross the 1 MiB block boundary
     BigBatch { n: u8 },
+    /// close the store and open the same directory through the other surface (KeyValueStore <-> LsmTree)
+    SwitchSurface,
     Scan { lo: BSel, hi: BSel, prog: Vec<POp> },
     CursorOpen { id: u8, lo: BSel, hi: BSel },
     CursorStep { id: u8, prog: Vec<POp> },
@@ -231,11 +233,12 @@ pub struct OpWeights {
     pub big_batch: u32,
     pub scan: u32,
     pub cursor: u32,
+    pub switch: u32,
 }
 
 impl OpWeights {
     pub fn base() -> Self {
-        Self { put: 30, del: 10, batch: 8, flush: 14, compact: 28, verify: 3, reopen: 3, ingest: 0, oversize: 1, big_batch: 0, scan: 0, cursor: 0 }
+        Self { put: 30, del: 10, batch: 8, flush: 14, compact: 28, verify: 3, reopen: 3, ingest: 0, oversize: 1, big_batch: 0, scan: 0, cursor: 0, switch: 0 }
     }
 }
 
@@ -277,6 +280,7 @@ pub fn op_strategy(w: OpWeights, surface: Surface) -> BoxedStrategy<Op> {
     v.push((w.compact, prop_oneof![3 => 1u8..5, 2 => 5u8..20].prop_map(|steps| Op::Compact { steps }).boxed()));
     v.push((w.verify, Just(Op::Verify).boxed()));
     v.push((w.reopen, Just(Op::Reopen).boxed()));
+    v.push((w.switch, Just(Op::SwitchSurface).boxed()));
     if w.scan > 0 {
         v.push((w.scan, (bsel(), bsel(), popvec(16)).prop_map(|(lo, hi, prog)| Op::Scan { lo, hi, prog }).boxed()));
     }
@@ -347,6 +351,7 @@ pub struct Stats {
     pub verify_unlinked: u64,
     pub verify_unlinked_other: u64,
     pub mid_flush_probes: u64,
+    pub surface_switches: u64,
     pub ingests: u64,
     pub max_levels: usize,
     pub max_files: usize,
@@ -983,6 +988,35 @@ impl<'a> Harness<'a> {
         out
     }
 
+    /// Close the store and open the same directory through the other surface.  A KeyValueStore is
+    /// reopened once more first, so that its logs are replayed into ssts (an LsmTree knows nothing
+    /// of logs).  Same R-D exclusion as reopen.
+    fn switch_surface(&mut self) -> Result<(), Fail> {
+        if !self.ctx.strict && rd_predicate(&self.levels()) {
+            self.stats.excluded.push("R-D".into());
+            return Ok(());
+        }
+        self.finish_cursors()?;
+        self.close();
+        if self.surface == Surface::Kvs {
+            self.open()?;
+            if !self.ctx.strict && rd_predicate(&self.levels()) {
+                // the replayed log produced an sst that triggers R-D at the next open: stay
+                self.stats.excluded.push("R-D".into());
+                return Ok(());
+            }
+            self.close();
+            self.surface = Surface::Tree;
+        } else {
+            self.surface = Surface::Kvs;
+        }
+        self.open()?;
+        self.stats.surface_switches += 1;
+        let l = self.levels();
+        self.note_shape(&l);
+        Ok(())
+    }
+
     fn reopen(&mut self) -> Result<(), Fail> {
         // R-D: reopen mis-levels files when two live ssts overlap in key range and timestamp range.
         // The log replayed on open adds one more sst whose timestamps are newer than everything,
@@ -1005,10 +1039,27 @@ impl<'a> Harness<'a> {
             return Ok(());
         }
         // distinct keys, sorted; timestamps fresh and higher than anything ingested before
-        let mut per_key: BTreeMap<Vec<u8>, Vec<Option<u8>>> = BTreeMap::new();
+        let mut per_key: BTreeMap<Vec<u8>, Vec<Option<Vec<u8>>>> = BTreeMap::new();
         for (k, vers) in items {
-            per_key.entry(self.key(*k)).or_insert_with(|| vers.clone());
+            let key = self.key(*k);
+            if per_key.contains_key(&key) {
+                continue;
+            }
+            let vals: Vec<Option<Vec<u8>>> = vers.iter().map(|v| v.map(|sz| self.fresh_value(sz))).collect();
+            per_key.insert(key, vals);
         }
+        self.ingest_writes(per_key)
+    }
+
+    /// One externally built sst holding the given versions (newest first) of each key, ingested
+    /// through LsmTree::ingest; the first version of each key is what the model records.
+    fn ingest_writes(&mut self, per_key: BTreeMap<Vec<u8>, Vec<Option<Vec<u8>>>>) -> Result<(), Fail> {
+        if !self.relieve_stall()? {
+            return Ok(());
+        }
+        // timestamps must exceed everything in the tree (also what a KeyValueStore phase wrote)
+        let tree_max = self.levels().iter().flatten().map(|m| m.biggest_timestamp).max().unwrap_or(0);
+        self.next_ts = self.next_ts.max(tree_max + 1);
         let total: u64 = per_key.values().map(|v| v.len() as u64).sum();
         let base = self.next_ts;
         self.next_ts += total + 1;
@@ -1023,7 +1074,7 @@ impl<'a> Harness<'a> {
             for (i, v) in vers.iter().enumerate() {
                 let ts = ts_hi;
                 ts_hi -= 1;
-                let val = v.map(|sz| self.fresh_value(sz));
+                let val = v.clone();
                 match &val {
                     Some(val) => b.put(k, ts, val),
                     None => b.del(k, ts),
@@ -1051,6 +1102,35 @@ impl<'a> Harness<'a> {
 
     pub fn apply(&mut self, op: &Op) -> Result<(), Fail> {
         match op {
+            Op::Put { .. } | Op::Del { .. } | Op::Batch { .. } | Op::BigBatch { .. } if self.surface == Surface::Tree => {
+                // after a surface switch: the same writes, as one externally built sst
+                let writes = write_set(&self.universe, &mut self.tag, op).unwrap();
+                self.ingest_writes(writes.into_iter().map(|(k, v)| (k, vec![v])).collect())?;
+            }
+            Op::Ingest { items } if self.surface == Surface::Kvs => {
+                // after a surface switch: the newest version of each key, as one write batch
+                let mut seen = BTreeSet::new();
+                let mut wb = WriteBatch::with_capacity(items.len());
+                let mut writes = vec![];
+                for (k, vers) in items {
+                    let key = self.key(*k);
+                    if !seen.insert(key.clone()) {
+                        continue;
+                    }
+                    let v = vers[0].map(|sz| self.fresh_value(sz));
+                    match &v {
+                        Some(v) => wb.put(&key, v),
+                        None => wb.del(&key),
+                    }
+                    writes.push((key, v));
+                }
+                self.kvs.as_ref().unwrap().write(wb).map_err(|e| fail("op-error:batch", format!("batch failed: {e:?}")))?;
+                for (k, v) in writes {
+                    self.model.insert(k, v);
+                }
+            }
+            Op::Flush | Op::Oversize { .. } if self.surface == Surface::Tree => {}
+            Op::SwitchSurface => self.switch_surface()?,
             Op::Put { .. } | Op::Del { .. } | Op::Batch { .. } | Op::BigBatch { .. } => {
                 let writes = write_set(&self.universe, &mut self.tag, op).unwrap();
                 let kvs = self.kvs.as_ref().unwrap();
@@ -1580,6 +1660,7 @@ pub fn op_name(op: &Op) -> &'static str {
         Op::Ingest { .. } => "ingest",
         Op::Oversize { .. } => "oversize",
         Op::BigBatch { .. } => "big-batch",
+        Op::SwitchSurface => "switch-surface",
         Op::Scan { .. } => "scan",
         Op::CursorOpen { .. } => "cursor-open",
         Op::CursorStep { .. } => "cursor-step",
@@ -1606,6 +1687,9 @@ pub fn label_stats(o: &mut Outcome, s: &Stats) {
     }
     if s.verify_unlinked > 0 {
         o.label("verifier-unlinked-files");
+    }
+    if s.surface_switches > 0 {
+        o.label("surface-switched");
     }
     if s.mid_flush_probes > 0 {
         o.label("read-in-the-middle-of-a-flush");
